@@ -62,6 +62,23 @@ func countDiamGoroutines() int {
 	return strings.Count(s, "sm.(*Client).watchdog") + strings.Count(s, "diam.(*conn).serve(")
 }
 
+// countClientGoroutines counts the goroutines that have a frame of the CHF's own Diameter client packages on their
+// stack (helpers a request starts beside the library's reader and watchdog tasks).
+func countClientGoroutines() (int, string) {
+	buf := make([]byte, 64<<20)
+	n := runtime.Stack(buf, true)
+	cnt, sample := 0, ""
+	for _, g := range strings.Split(string(buf[:n]), "\n\n") {
+		if strings.Contains(g, "chf/internal/abmf.") || strings.Contains(g, "chf/internal/rating.") {
+			cnt++
+			if sample == "" {
+				sample = g
+			}
+		}
+	}
+	return cnt, sample
+}
+
 // settle polls until the counts are stable (or 4 s passed).
 func settle() resCount {
 	var last resCount
@@ -191,6 +208,7 @@ func judgeC18Silent(c C18Silent) *h.Verdict {
 		ss = append(ss, sessT{w.subs[i].supi, r.Sess.ref, r.Sess.chargingID})
 	}
 	base := settle()
+	baseClient, _ := countClientGoroutines()
 	for rep := 0; rep < c.Reps; rep++ {
 		done := make(chan int, len(ss))
 		for i, s := range ss {
@@ -215,6 +233,9 @@ func judgeC18Silent(c C18Silent) *h.Verdict {
 	n := c.Subs * c.Reps
 	if rc.conns > base.conns+2 {
 		return v.Failf("connections-left-after-timeouts", "%d updates whose exchanges timed out left %d connections to the peers open (before: %d)", n, rc.conns, base.conns)
+	}
+	if cl, sample := countClientGoroutines(); cl > baseClient {
+		return v.Failf("tasks-left-after-timeouts/client-helper", "%d updates whose exchanges timed out left %d goroutines started by the CHF's Diameter clients behind (before: %d), e.g.\n%.1500s", n, cl, baseClient, sample)
 	}
 	if rc.diamGoroutines > base.diamGoroutines+2 {
 		return v.Failf("tasks-left-after-timeouts", "%d updates whose exchanges timed out left %d Diameter watchdog/reader tasks behind (before: %d); all goroutines %d -> %d", n, rc.diamGoroutines, base.diamGoroutines, base.goroutines, rc.goroutines)
